@@ -139,7 +139,59 @@ pub fn families() -> Vec<Box<dyn Family>> {
                 };
                 out.sample(|| format!("alg={} N={} M={} ranges {:?} {:?}", alg_name(alg), a.len(), b.len(), or, nr));
                 out.count("big_cases");
-                sub_case(alg, &a, or, &b, nr, 1 | 2, out);
+                sub_case(alg, &a, or.clone(), &b, nr.clone(), 1 | 2, out);
+                // a deadline that is present but never expires must not change the contract
+                let eq = |o: usize, n: usize| a[o] == b[n];
+                similar::verif_hooks::set_clock(similar::verif_hooks::Clock::Fuel(u64::MAX));
+                out.eval();
+                let r = traced(Entry::Dispatch, alg, &a[..], or.clone(), &b[..], nr.clone(), &eq, Some(far_deadline()), true);
+                similar::verif_hooks::set_clock(similar::verif_hooks::Clock::Off);
+                let ctx = || format!("alg={} N={} M={} ranges {:?} {:?} old={} new={} (deadline present, never expires)", alg_name(alg), a.len(), b.len(), or, nr, fmt_seq(&a), fmt_seq(&b));
+                report_trace(out, "algorithms::diff_deadline", &ctx, &r);
+            },
+        ),
+        family(
+            "far",
+            "large edit distances: lopsided replaced blocks (10..6000 old items replaced by 10..6000 unrelated new ones between a common head and tail), mostly unrelated sequences of 2500..5000 items sharing a few landmarks, and LCS on two unrelated sequences of about 4200 x 4100 items; without deadline and with a deadline that never expires",
+            false,
+            1,
+            |cfg| if cfg.tiny { 2 } else { cfg.tier.pick(20, 120) },
+            |idx, cfg, out| {
+                let mut rng = Rng::for_case(cfg.seed, "c01.far", idx);
+                let lcs_huge = idx == 3 && !cfg.tiny;
+                let (a, b) = if cfg.tiny {
+                    gen::asymmetric_replace(&mut rng, 1, 1, 4, 1)
+                } else if lcs_huge {
+                    let (n, m) = (rng.range(4100, 4300), rng.range(4100, 4300));
+                    gen::landmark_pair(&mut rng, n, m, 3, 0)
+                } else if idx % 2 == 0 {
+                    let (n, m) = (rng.range(2500, 5000), rng.range(2500, 5000));
+                    let k = rng.range(5, 80);
+                    let crossing = rng.below(4);
+                    gen::landmark_pair(&mut rng, n, m, k, crossing)
+                } else {
+                    let sizes = [10usize, 100, 1000, 2600, 4200, 6000];
+                    let (l1, l2) = (*rng.pick(&sizes), *rng.pick(&sizes));
+                    let (head, tail) = (rng.below(300), rng.below(300));
+                    gen::asymmetric_replace(&mut rng, head, tail, l1, l2)
+                };
+                let alg = if lcs_huge { Algorithm::Lcs } else if rng.chance(1, 2) { Algorithm::Myers } else { Algorithm::Patience };
+                out.sample(|| format!("alg={} N={} M={}", alg_name(alg), a.len(), b.len()));
+                out.count("far_cases");
+                if lcs_huge {
+                    out.count("lcs_cases_above_4096x4096_unrelated");
+                }
+                let eq = |o: usize, n: usize| a[o] == b[n];
+                for with_deadline in [false, true] {
+                    if with_deadline {
+                        similar::verif_hooks::set_clock(similar::verif_hooks::Clock::Fuel(u64::MAX));
+                    }
+                    out.eval();
+                    let r = traced(Entry::Dispatch, alg, &a[..], 0..a.len(), &b[..], 0..b.len(), &eq, if with_deadline { Some(far_deadline()) } else { None }, with_deadline);
+                    similar::verif_hooks::set_clock(similar::verif_hooks::Clock::Off);
+                    let ctx = || format!("alg={} N={} M={} old={} new={} deadline={}", alg_name(alg), a.len(), b.len(), fmt_seq(&a), fmt_seq(&b), if with_deadline { "present, never expires" } else { "none" });
+                    report_trace(out, "algorithms::diff(_deadline)", &ctx, &r);
+                }
             },
         ),
     ]
